@@ -91,6 +91,12 @@ def stage_match(items, rng, npaths=(14, 12)):
             it.lang = parts[1].split('|')
         elif len(parts) == 2:
             it.cls = dict(kv.split('=') for kv in parts[0].split())
+    # the classes of a tree must not depend on the budget of the matcher: where the `lang` command ran out of time, ask for them alone
+    late = [it for it in built if not it.cls]
+    if late:
+        for it, c in zip(late, W.run_model(['cls %s' % hx(it.e) for it in late])):
+            if '=' in c and '\t' not in c:
+                it.cls = dict(kv.split('=') for kv in c.split())
     return built
 
 
